@@ -257,6 +257,16 @@ Section Repaired.
   Qed.
 End Repaired.
 
+(* model.parse on an existing model changes nothing in the shared state, whatever compile is (in the model a
+   parse reads heap[h] and the per-call arguments only; checked against the code by the A2 write-set oracle) *)
+Theorem parse_does_not_mutate :
+  forall (R : Type) (settings_valid : N -> bool) (result_of : gmodel -> sem -> N -> R) (gen_of : gmodel -> R)
+         (compile : cargs -> state -> state * (err + nat)) (st : state) (v : nat) (p : pargs),
+    fst (run_op R settings_valid result_of gen_of compile st (OParseVar v p)) = st.
+Proof.
+  intros. simpl. destruct (nth_error (vars st) v) as [[h a]|]; reflexivity.
+Qed.
+
 (* ------------------------------------------------------------------ the shipped compile: refutation *)
 (* free interpretation: a result is the triple it is computed from *)
 Definition RT : Type := (gmodel * sem * N)%type.
